@@ -191,3 +191,49 @@ func VerifInitialKeys(connID protocol.ConnectionID, v protocol.Version) (out [6]
 	out[5] = hkdfExpandLabel(initialSuite.Hash, ss, []byte{}, hkdfHeaderProtectionLabel(v), initialSuite.KeyLen)
 	return
 }
+
+// ---- key update derivation (RFC 9001 6.1 / RFC 9369 3.3.2) ----
+
+// VerifNextTrafficSecret is the real updatableAEAD.getNextTrafficSecret for a version.
+func VerifNextTrafficSecret(suiteID uint16, v protocol.Version, ts []byte) []byte {
+	cs := getCipherSuite(suiteID)
+	a := newUpdatableAEAD(utils.NewRTTStats(), nil, utils.DefaultLogger, v)
+	return a.getNextTrafficSecret(cs.Hash, ts)
+}
+
+// VerifSuiteParams: hash output size and AEAD key length of a suite.
+func VerifSuiteParams(suiteID uint16) (hashLen, keyLen int) {
+	cs := getCipherSuite(suiteID)
+	return cs.Hash.Size(), cs.KeyLen
+}
+
+// verifKULabel finds, by behaviour, the label getNextTrafficSecret uses for a version: the
+// candidate whose HKDF-Expand-Label (the package's own) reproduces its output ("?" if none).
+func verifKULabel(v protocol.Version) string {
+	ts := []byte("0123456789abcdef0123456789abcdef")
+	got := VerifNextTrafficSecret(tls.TLS_AES_128_GCM_SHA256, v, ts)
+	h := getCipherSuite(tls.TLS_AES_128_GCM_SHA256).Hash
+	for _, l := range []string{"quic ku", "quicv2 ku"} {
+		if string(hkdfExpandLabel(h, ts, []byte{}, l, h.Size())) == string(got) {
+			return l
+		}
+	}
+	return "?"
+}
+
+func verifCoqString(s string) string { return "string := \"" + s + "\"%string" }
+
+// VerifLabelConsts: the HKDF labels per version for the constants translator (key/iv are
+// constants of the package, hp a function of the version, ku extracted by behaviour).
+func VerifLabelConsts() [][2]any {
+	return [][2]any{
+		{"PP_hkdfLabelKeyV1", verifCoqString(hkdfLabelKeyV1)},
+		{"PP_hkdfLabelKeyV2", verifCoqString(hkdfLabelKeyV2)},
+		{"PP_hkdfLabelIVV1", verifCoqString(hkdfLabelIVV1)},
+		{"PP_hkdfLabelIVV2", verifCoqString(hkdfLabelIVV2)},
+		{"PP_hkdfLabelHPV1", verifCoqString(hkdfHeaderProtectionLabel(protocol.Version1))},
+		{"PP_hkdfLabelHPV2", verifCoqString(hkdfHeaderProtectionLabel(protocol.Version2))},
+		{"PP_hkdfLabelKUV1", verifCoqString(verifKULabel(protocol.Version1))},
+		{"PP_hkdfLabelKUV2", verifCoqString(verifKULabel(protocol.Version2))},
+	}
+}
